@@ -202,7 +202,7 @@ def mon_c09(ops, obs, eng):
         if r is None:
             continue
         if failed:
-            if op[0] != "FORK" and not panicked(r):
+            if op[0] not in dbengine.CTL and not panicked(r):
                 out.append((oi, "replica answered %r after the launch deadline fail-stop" % (op[0],)))
                 break
             continue
@@ -486,7 +486,7 @@ def run_db_property(ck, eng, traces, monitors, with_replicas=False, nontrivial=N
                 ck.violation(msg if not b2 else b2[0][1], {"kind": "monitor:" + mon.__name__, "engine": "db", "ops": dbengine.trace_to_json(small),
                                                                "failing_op_index": (b2[0][0] if b2 else oi),
                                                                "implementation_answers": {str(k): v[:400] for k, v in (rr[0]["obs"].get("A", {}) if rr else obsA).items()}})
-    if with_replicas:
+    if True:      # replica A vs the second fresh replica / snapshot-restored replicas (with_replicas) and vs the lagging follower (LAGSTART..CATCHUP)
         div = eng.replica_divergences(traces, results)
         for (ti, oi, nm, la, lx) in div[:3]:
             ck.violation("replica %s answers differently from replica A at op %d (%s): A=%s other=%s" % (nm, oi, traces[ti][oi][0], la[:160], lx[:160]),
